@@ -16,10 +16,10 @@ import (
 
 func init() { Registry["C11"] = runC11 }
 
-var c11Rel = []string{"stylesheet", "stylesheet nofollow", "icon", "preload", "alternate stylesheet", "canonical", "ugc sponsored", "external", "opener", "Opener", "follow", "referrer", "no opener", "noopener-x", "xnoopener", "opener nofollow", "nofollo", "noreferre", "tag\u00a0", "author\u3000", "me\x0b", "x\u2028", "tag\u0085", "nofollowx\u00a0", "tag ", "tag\t", "nofollow", "noopener", "noreferrer", "nofollow noopener", "NOFOLLOW", "NoReferrer", "NOOPENER", "xnofollowx", "noopenerx", "xnoreferrer", "nofollow-x", "author", "a b",
+var c11Rel = []string{"tag\fnofollow", "a\rb nofollow", "x\fy", "nofollow\f", "\fnoopener", "me\r\nnoreferrer", "stylesheet", "stylesheet nofollow", "icon", "preload", "alternate stylesheet", "canonical", "ugc sponsored", "external", "opener", "Opener", "follow", "referrer", "no opener", "noopener-x", "xnoopener", "opener nofollow", "nofollo", "noreferre", "tag\u00a0", "author\u3000", "me\x0b", "x\u2028", "tag\u0085", "nofollowx\u00a0", "tag ", "tag\t", "nofollow", "noopener", "noreferrer", "nofollow noopener", "NOFOLLOW", "NoReferrer", "NOOPENER", "xnofollowx", "noopenerx", "xnoreferrer", "nofollow-x", "author", "a b",
 	"nofollow\tnoreferrer", "nofollow\nx", "nofollow nofollow", "", " ", "external nofollow noopener noreferrer", "noreferrernofollow", "x nofollow", "nofollow\x0bx", "me  noopener ", "nofollownoopener noreferrer", "é"}
 
-var c11Href = []string{"%zz", "http://a b/", "http://[::1", "http://example.org:bad/", "http://%41example.org/", "http://exa%mple.org/x", ":", "http://example.org/%", "http://example.org/", "https://example.org:8080/a?b=c#d", "//cdn.example.net/x", "/local/path", "path/only", "#frag", "?q=1", "mailto:a@example.org", "HTTP://EXAMPLE.ORG", "http://user@example.org/", "", "ftp://example.org/", "http:/one-slash", "http:opaque", "javascript:alert(1)", "http://[::1]/"}
+var c11Href = []string{"http://localhost/", "https://localhost:8080/x", "http://127.0.0.1/", "http://LOCALHOST/", "//localhost/x", "%zz", "http://a b/", "http://[::1", "http://example.org:bad/", "http://%41example.org/", "http://exa%mple.org/x", ":", "http://example.org/%", "http://example.org/", "https://example.org:8080/a?b=c#d", "//cdn.example.net/x", "/local/path", "path/only", "#frag", "?q=1", "mailto:a@example.org", "HTTP://EXAMPLE.ORG", "http://user@example.org/", "", "ftp://example.org/", "http:/one-slash", "http:opaque", "javascript:alert(1)", "http://[::1]/"}
 
 var c11Target = []string{"_blank", "_self", "_BLANK", "", "frame1", "_blank ", "_top"}
 
